@@ -5,5 +5,6 @@ CONSTANTS
   Protocol = "atomic"
   SignalDeath = "failure"
   MkdirMode = "idempotent"
+  Failures = "all"
 INVARIANT Emit
 CHECK_DEADLOCK FALSE
